@@ -60,6 +60,15 @@ def handleC19 (op : String) (input impl : Json) : Except String Json := do
         (fldD v "spilled" Json.null).compress == (fldD mv "spilled" Json.null).compress
       else resClass impl == resClass mj)
     return reply mj agree viol
+  | "ingest-error" =>
+    -- a failing ingest (malformed last record, after runs were spilled) still removes its spill files
+    if resClass impl == "panic" then return reply Json.null false ["no-panic"]
+    if resClass impl != "ok" then return reply Json.null false ["unexpected-error"]
+    let v := fldD impl "val" Json.null
+    let errored := (fldD v "errored" (Json.bool false)).getBool?.toOption.getD false
+    let leftover := (fldD v "leftover" (jNat 0)).compress
+    let viol := (if errored then [] else ["malformed-record-is-an-error"]) ++ (if leftover == "0" then [] else ["spill-files-removed"])
+    return reply (Json.mkObj [("errored", Json.bool true), ("leftover", jNat 0)]) viol.isEmpty viol
   | _ => throw s!"unknown op {op}"
 
 end Wrgl.Drv
